@@ -74,9 +74,9 @@ class HEX(BinFormat):
         lines = []
         for l in self.L:
             if l.HEXcode == ExtendedSegmentAddress:
-                seg = l.base
+                seg, ela = l.base, 0
             elif l.HEXcode == ExtendedLinearAddress:
-                ela = l.ela
+                ela, seg = l.ela, 0
             elif l.HEXcode == Data:
                 if ela:
                     address = (ela << 16) + l.address
